@@ -69,7 +69,10 @@ class _ReIterable:
         return self._sim._arg_iter(self._req)
 
     def __len__(self):
-        return len(self._req.elems)
+        n = len(self._req.elems)
+        if self._req.spec.get("itk") == 2:
+            return max(1, n // 2)        # len() counts something else (pages, batches): only iteration says what the elements are
+        return n
 
 
 class _CbCallable:
@@ -343,7 +346,15 @@ class _AsyncCallable:
 
 def _not_coroutine_function(k):
     """Callables that are NOT coroutine functions (C09)."""
-    k = k % 5
+    k = k % 6
+    if k == 5:
+        async def real(*a, **k):
+            return None
+
+        @functools.wraps(real)
+        def fire_and_forget(*a, **k):       # a plain function (returns a Task) that merely WRAPS a coroutine function
+            return asyncio.ensure_future(real(*a, **k))
+        return fire_and_forget
     if k == 0:
         f = (lambda *a, **k: None)
         f.__name__ = "not_a_coroutine_function"
@@ -392,6 +403,7 @@ class Sim:
             logging.getLogger("asyncio_taskpool").setLevel(logging.DEBUG)
         self.run = run
         self.cfg = run["config"]
+        self._orphans = []
         self.clean = run.get("clean", True)
         # which recorded findings' triggers the step executor steers around
         self.steer = set(run.get("steer", ("F-EARLY", "F-LOCK") if self.clean else ()))
@@ -590,6 +602,20 @@ class Sim:
             plain.__name__ = fname
             plain.__qualname__ = fname
             return plain
+        if fk == "wrap":
+            # a coroutine function behind a functools.wraps decorator that injects a leading argument: introspection
+            # (inspect.signature follows __wrapped__) and call behaviour disagree - only the call behaviour counts
+            async def inner(session, *args, **kwargs):
+                inv = sim._on_call(owner, args, kwargs, True)
+                return await sim._body(inv)
+            inner.__name__ = fname
+            inner.__qualname__ = fname
+
+            @functools.wraps(inner)
+            async def with_session(*args, **kwargs):
+                return await inner(object(), *args, **kwargs)
+            self.stats["probe:wrapped_worker"] += 1
+            return with_session
         if fk == "pmeth":
             # an ordinary coroutine function again, this time as the bound method of an object nothing else refers to
             async def meth(_self, *args, **kwargs):
@@ -763,6 +789,18 @@ class Sim:
         if kind is None:
             return None
         sim = self
+        if kind[-1] == "f":
+            # a plain callback that hands back an awaitable (fire-and-forget: `lambda i: asyncio.ensure_future(...)`): the
+            # pool calls plain callbacks, it does not wait for what they return
+            inner = self._make_cb(owner, which, kind[:-1])
+            self.stats["probe:callback_returns_pending_future"] += 1
+
+            def cbf(task_id):
+                inner(task_id)
+                fut = sim.loop.create_future()
+                sim._orphans.append(fut)
+                return fut
+            return cbf
         if kind[-1] in "mop":
             # the same callback in another legal shape: a bound method of an object that only the pool (through the
             # method) refers to / an instance with __call__ / a functools.partial with a bound leading argument
@@ -801,7 +839,7 @@ class Sim:
                 try:
                     sim._op_point(which, trec)
                     if not trec.inv_probe():
-                        e = TypeError(f"{which} {trec.name}: unsupported operand (injected)")
+                        e = TypeError(f"{which}() missing 1 required positional argument: 'task_id' (injected, {trec.name})")
                         sim.injected.append(e)
                         sim.inj_by_pool[trec.pc.idx] += 1
                         sim.stats["fault:callback_raises_typeerror"] += 1
@@ -1383,7 +1421,7 @@ class Sim:
                     if gn is not None:
                         kw["group_name"] = gn
                     it = self._arg_iter(req)
-                    if step.get("itk") == 1:
+                    if step.get("itk") in (1, 2):
                         it = _ReIterable(self, req)
                     ret = getattr(pool, kind)(func, it, req.nc, end_callback=ecb, cancel_callback=ccb, **kw)
             except Exception as e:
@@ -2351,6 +2389,9 @@ class Sim:
         try:
             with running(self.loop), warnings.catch_warnings(record=True) as wlist:
                 warnings.simplefilter("always")
+                if self.cfg.get("wfilter") == "error":
+                    # configuration knob: the process treats warnings as errors (-W error); applied to the library's own
+                    warnings.filterwarnings("error", module=r"asyncio_taskpool")
                 self.warn_list = wlist
                 if source is None:
                     for step in run["steps"]:
